@@ -657,4 +657,71 @@ example : (consumeFull .logs (fun _ : Unit => 0) false () (fun _ => .downstream 
     (consumeFull .logs (fun _ : Unit => 0) false () (fun _ => .downstream 1 false)).res = .downstream 1 false ∧
     (consumeFull .profiles (fun _ : Unit => 0) true () (fun _ => .ok)).res = .refused := by decide
 
+
+/-- **the mode changes only through a measurement**: whatever the label — start or shutdown of any sharer,
+the last one included, or a tick that reaches no running checker — the refuse/accept state is untouched
+unless the label is a tick that `CheckMemLimits` actually handles -/
+theorem C18_mode_only_changes_on_measurement (k : Checker) (gs gh : Int) (s : Sys) (l : Lbl)
+    (h : (s.step k gs gh l).st ≠ s.st) : ∃ r, l = .tick r ∧ s.rc.checking = true := by
+  cases l with
+  | start => exact absurd rfl h
+  | shutdown => exact absurd rfl h
+  | tick r =>
+    refine ⟨r, rfl, ?_⟩
+    cases hc : s.rc.checking
+    · rewrite [Sys.step_tick_off k gs gh s r hc] at h; exact absurd rfl h
+    · rfl
+
+/-- over whole label sequences: if no tick in `ls` is handled (no user present at any tick), the mode after `ls` is the mode before -/
+theorem C18_mode_constant_without_measurement (k : Checker) (gs gh : Int) (ls : List Lbl) : ∀ s : Sys,
+    (Sys.run k gs gh s ls).checks = s.checks → (Sys.run k gs gh s ls).st = s.st := by
+  induction ls with
+  | nil => intro s _; rfl
+  | cons l ls ih =>
+    intro s h
+    have hmono : ∀ (xs : List Lbl) (t : Sys), t.checks ≤ (Sys.run k gs gh t xs).checks := by
+      intro xs
+      induction xs with
+      | nil => intro t; exact Nat.le_refl _
+      | cons x xs ihx =>
+        intro t
+        have h1 : t.checks ≤ (t.step k gs gh x).checks := by
+          cases x with
+          | start => exact Nat.le_refl _
+          | shutdown => exact Nat.le_refl _
+          | tick r =>
+            cases hc : t.rc.checking
+            · rewrite [Sys.step_tick_off k gs gh t r hc]; exact Nat.le_refl _
+            · rewrite [Sys.step_tick_on k gs gh t r hc, upd_checks]; exact Nat.le_succ _
+        exact Nat.le_trans h1 (ihx _)
+    have hrun : Sys.run k gs gh s (l :: ls) = Sys.run k gs gh (s.step k gs gh l) ls := rfl
+    rewrite [hrun] at h ⊢
+    have hstep : (s.step k gs gh l).checks = s.checks ∧ (s.step k gs gh l).st = s.st := by
+      cases l with
+      | start => exact ⟨rfl, rfl⟩
+      | shutdown => exact ⟨rfl, rfl⟩
+      | tick r =>
+        cases hc : s.rc.checking
+        · rewrite [Sys.step_tick_off k gs gh s r hc]; exact ⟨rfl, rfl⟩
+        · exfalso
+          have := hmono ls (s.step k gs gh (.tick r))
+          rewrite [Sys.step_tick_on k gs gh s r hc, upd_checks] at this
+          rewrite [Sys.step_tick_on k gs gh s r hc] at h
+          omega
+    rewrite [← hstep.2]
+    exact ih _ (by rewrite [hstep.1]; exact h)
+
+/-- soundness of the mode oracle -/
+theorem C18_checkMode_sound (before after : Bool) (measured : Nat) (h : checkMode before after measured = []) :
+    measured = 0 → after = before := by
+  intro hm
+  unfold checkMode at h
+  cases before <;> cases after <;> simp_all
+
+/-- and the model passes it on every start / shutdown step -/
+theorem C18_model_passes_checkMode (k : Checker) (gs gh : Int) (s : Sys) :
+    checkMode s.st.mustRefuse (s.step k gs gh .start).st.mustRefuse 0 = [] ∧
+    checkMode s.st.mustRefuse (s.step k gs gh .shutdown).st.mustRefuse 0 = [] := by
+  constructor <;> simp [checkMode, Sys.step]
+
 end OtelVerif.C18
